@@ -443,7 +443,10 @@ class World:
         job = self.make_job(ev, b)
         if job is None:
             return {'status': 'NoSuchRef', 'trace': [], 'ops': []}
+        if fault is None and ev.get('fault'):
+            fault = dict(ev['fault'])            # a fault scripted in the history itself (replayable)
         self.trace, self.ops, self.fault = [], [], fault
+        self.cmd_count = 0
         self._reset_stages()
         rec = Recorder(self)
         before = len(b.tasks_done)
@@ -452,6 +455,7 @@ class World:
             b.process_task()
         self.jobs_run += 1
         return {'status': job.status or ('OK' if job.done else 'NOTDONE'), 'details': job.details,
+                'fault_fired': bool(fault and fault.get('fired')), 'fault_command': (fault or {}).get('command'),
                 'trace': self.trace, 'ops': self.ops, 'done': job.done, 'stages': list(self.stages.roots),
                 'worker_clean': 'current job' not in b.status and len(b.tasks_done) >= before}
 
@@ -712,6 +716,15 @@ class Recorder:
         def w_cmd(orig):
             def cmd(self_, command, *args, **kw):
                 c = command % tuple(args) if args else command
+                idx = getattr(w, 'cmd_count', 0)
+                w.cmd_count = idx + 1
+                f = w.fault
+                if f and f.get('mode') == 'git_fail' and f.get('cmd_index') == idx and not f.get('fired'):
+                    # one git command of the job fails once (network hiccup, stale lock): it is not run at all
+                    f['fired'] = True
+                    f['command'] = c.split(' http')[0][:80]
+                    from bert_e.lib.simplecmd import CommandError
+                    raise CommandError('injected failure of: %s' % c.split(' http')[0][:80])
                 cur = getattr(w, '_cur_push_all', None)
                 if cur is not None and re.match(r'^git push\b', c):
                     cur['cmd'] = c
